@@ -2,7 +2,7 @@
 # tools/mutant.sh <patch.diff> <tier> <check ids...>
 # applies the patch to a scratch worktree of /repo HEAD (never to /repo), runs the checks against it
 # (PVMON_REPO), prints one line per check, removes the worktree.
-patch="$1"; tier="$2"; shift 2
+patch=$(realpath "$1"); tier="$2"; shift 2
 wt=$(mktemp -d /tmp/mut_wt.XXXXXX); rmdir "$wt"
 git -C /repo worktree add -q --detach "$wt" HEAD || exit 9
 if ! git -C "$wt" apply "$patch" 2>/dev/null; then
